@@ -49,7 +49,7 @@ EXPECT_PROBES = ["announced", "lost_announced", "lost_half_open",
                  "same_dpid_overlap", "barrier_unsupported", "reset", "close",
                  "probe_send_hit", "probe_send_miss",
                  "unrelated_bad_type_error_mid_handshake",
-                 "glued_to_handshake_end"]
+                 "glued_to_handshake_end", "nexus_up_listener_raised"]
 
 DPIDS = [0x11, 0x2200000022]
 # the two datapath ids of a run are drawn from here (cfg["dpids"]); 0 and
@@ -68,7 +68,8 @@ def gen_plan(seed, tier):
   cfg = {"segment": r.chance(0.5), "delay": r.chance(0.3),
          "recv_mode": r.pick(["all", "all", "choose", "dribble"]),
          "shuffle_ready": r.chance(0.3),
-         "dpids": r.sample(DPID_POOL, 2) if r.chance(0.5) else list(DPIDS)}
+         "dpids": r.sample(DPID_POOL, 2) if r.chance(0.5) else list(DPIDS),
+         "up_listener_raises": r.chance(0.25)}
   # per-peer script, then a random interleaving
   scripts = []
   for p in range(npeers):
@@ -188,8 +189,16 @@ def run_plan(plan):
 
 
 def _drive(sim, plan, known, hit):
+  cfg = plan["cfg"]
   world = CTLWorld(sim)
   world.boot()
+  if cfg.get("up_listener_raises"):
+    # some component's ConnectionUp handler on the nexus is broken (it runs
+    # after everybody else's): that is its problem, not the connection's
+    def broken(event):
+      sim.probes["nexus_up_listener_raised"] += 1
+      raise KeyError("a ConnectionUp listener of some component fails")
+    world.nexus.addListenerByName("ConnectionUp", broken, priority=-2000)
   peers = {}      # plan peer index -> (Peer, PeerModel)
   ann_counter = [0]
   xid_counter = [0x5000]
